@@ -129,6 +129,10 @@ func c13(w *World) {
 				default:
 					raw = sc.Msg("0")
 				}
+				// often several messages in one segment, so that the reader holds complete read-ahead messages
+				for k := w.W.Pick(3, 2, 1, 1); k > 0; k-- {
+					raw = append(raw, sc.Msg([]string{"0", "1", "D"}[w.W.Draw(3)], F(TagTestReqID, "b"+itoa(i)+"-"+itoa(k)))...)
+				}
 				sc.P.SendShaped(raw, w.ShapeWith(w.W, w.W.Draw(5), 0))
 				if w.W.Chance(1, 2) {
 					simrt.Yield("harness.peer-traffic")
@@ -186,6 +190,18 @@ func c13(w *World) {
 		simrt.Yield("harness.partial")
 		w.Probe("cause_inside_message")
 	}
+
+	// full buffers at the moment of the cause: the peer stops reading shortly before, so that the
+	// writer sits in a blocked Write and the outgoing channel fills up behind it
+	congested := false
+	if point == "mid-traffic" && cause != "peer-stops-reading" && w.F.Chance(1, 3) {
+		congested = true
+		sc.P.C.SetInCap(w.F.Draw(128))
+		sc.P.C.Stall(true)
+		simrt.Sleep(time.Duration(20+w.F.Draw(300)) * time.Millisecond)
+		w.Probe("congested_at_cause")
+	}
+	_ = congested
 
 	// ---- the cause ----
 	localInitiated := false
@@ -277,7 +293,7 @@ func c13(w *World) {
 		if n == 0 {
 			w.Violate("no-notification", key, fmt.Sprintf("the peer ended the connection (%s at %s) but the application got neither OnDisconnect nor OnStopped", cause, point))
 		}
-	} else if !sc.P.EOF && !sc.P.C.IsClosed() {
+	} else if !congested && !sc.P.EOF && !sc.P.C.IsClosed() {
 		w.Violate("peer-not-notified", key, fmt.Sprintf("local termination (%s) but the peer never observed the end of the stream", cause))
 	}
 	// (4) later sends return
